@@ -1537,3 +1537,30 @@ pub fn http_demux_select(core: &Core, protocol: u8, method: &str, uri: &str, hea
         },
     )
 }
+
+// ---------------------------------------------------------------------------------------
+// Log scrubbing (C20)
+
+/// `net_utils::scrub_request` on a header list: resulting (name, value) pairs in map order
+pub fn scrub_request_view(headers: &[(String, Vec<u8>)]) -> Option<Vec<(String, String)>> {
+    let mut b = http::Request::builder().method("GET").uri("https://example.org/");
+    for (n, v) in headers {
+        b = b.header(n.as_str(), http::HeaderValue::from_bytes(v).ok()?);
+    }
+    let parts = b.body(()).ok()?.into_parts().0;
+    let scrubbed = net_utils::scrub_request(&parts);
+    if scrubbed.method != parts.method || scrubbed.uri != parts.uri || scrubbed.version != parts.version {
+        return None;
+    }
+    Some(
+        scrubbed
+            .headers
+            .iter()
+            .map(|(n, v)| (n.as_str().to_string(), String::from_utf8_lossy(v.as_bytes()).to_string()))
+            .collect(),
+    )
+}
+
+pub fn scrub_sni(sni: &str) -> String {
+    net_utils::scrub_sni(sni.to_string())
+}
